@@ -209,3 +209,43 @@ Fixpoint bad_from (n : N) (l : list N) : list (N * N) :=
   | v :: r => if N.eqb v 0 then bad_from (n + 1) r else (n, v) :: bad_from (n + 1) r
   end.
 Definition bad (l : list N) : list (N * N) := bad_from 0 l.
+
+(* ---------------------------------------------------------------- bounded top-level collections
+   in a slice that runs several ticks (an unbounded trigger is sliced with them).
+   ProdDfirBuilder::batch replays (persist::<'static>) exactly the bounded SINGLETON-like kinds
+   (Singleton / Optional / KeyedSingleton): every slice sees their one value; a bounded STREAM-like
+   collection (Stream, KeyedStream) is not replayed: it is handed to exactly one batch.
+   (The emission side of this list is Model.un_ops UBatch, compared with the emitted graph.) *)
+Local Open Scope N_scope.
+
+Fixpoint pair_lists_eqb (a b : list (list N * N)) : bool :=
+  match a, b with
+  | [], [] => true
+  | (x1, x2) :: a', (y1, y2) :: b' => listN_eqb x1 y1 && N.eqb x2 y2 && pair_lists_eqb a' b'
+  | _, _ => false
+  end.
+
+(* production model: the first slice gets the whole bounded collection, later slices nothing;
+   every slice's trigger batch is what arrived in its tick (counts) *)
+Definition prod_bounded_stream (input : list N) (arrivals : list (list N)) : list (list N * N) :=
+  match arrivals with
+  | [] => []
+  | a :: r => (input, N.of_nat (length a)) :: map (fun x => ([], N.of_nat (length x))) r
+  end.
+Definition prod_bounded_single (value : list N) (arrivals : list (list N)) : list (list N * N) :=
+  map (fun x => (value, N.of_nat (length x))) arrivals.
+
+(* stream-like: the batches partition the bounded input (each element in exactly one batch, in
+   order) and the trigger batches partition the trigger input (counts add up) *)
+Definition c31_bounded_stream_verdict (input : list N) (arrivals : list (list N))
+           (impl : list (list N * N)) : N :=
+  v_of (negb (pair_lists_eqb (prod_bounded_stream input arrivals) impl))
+       (negb (batches_partition_b input (map fst impl)
+              && N.eqb (sumN (map snd impl)) (N.of_nat (length (concat arrivals))))).
+
+(* singleton-like: every slice observes the same (only) version *)
+Definition c31_bounded_single_verdict (value : list N) (arrivals : list (list N))
+           (impl : list (list N * N)) : N :=
+  v_of (negb (pair_lists_eqb (prod_bounded_single value arrivals) impl))
+       (negb (forallb (fun x => listN_eqb (fst x) value) impl
+              && N.eqb (sumN (map snd impl)) (N.of_nat (length (concat arrivals))))).
